@@ -30,14 +30,42 @@ def gen_put(rng, nargs=None, allow_dots=True, allow_missing=True, allow_mount=Tr
     if allow_dots and rng.random() < 0.2:
         d = rng.choice(['.', '..', './', '../', './.', cwd + '/.', cwd + '/..', './/', '..//'])
         args.insert(rng.randint(0, len(args)), {'arg': d, 'kind': 'dot', 'entry': None, 'expect': 'refuse'})
-    if allow_mount and lay.vols and rng.random() < 0.1:
-        m = rng.choice(lay.vols)
+    free_vols = [m for m in lay.vols if not any(engine.under(v['path'], m) for v in vs) and not engine.under(cwd, m)
+                 and not any(engine.under(x, m) and x != m for x in lay.mounts)]
+    if allow_mount and free_vols and rng.random() < 0.15:
+        m = rng.choice(free_vols)
         nodes.append(['f', m + '/keep_me', 'on the volume'])
         args.insert(rng.randint(0, len(args)), {'arg': m + rng.choice(['', '/']), 'kind': 'mount', 'entry': m, 'expect': 'refuse-untouched'})
     if allow_bad_utf8 and rng.random() < 0.12:
         bad = lay.home + '/bad\udcff\udcfe'
         nodes.append(['f', bad, 'undecodable name'])
         args.insert(rng.randint(0, len(args)), {'arg': bad, 'kind': 'badutf8', 'entry': bad, 'expect': 'fail-untouched'})
+    # names already taken in the trash directories the victims can go to: complete entries, payloads without info
+    # (file, directory, dangling link), infos without payload
+    if rng.random() < 0.35:
+        for v in vs:
+            if rng.random() < 0.6:
+                continue
+            tds = [lay.home_trash]
+            for m in lay.all_vols:
+                if engine.under(v['path'], m):
+                    if lay.top1_can_hold(m):
+                        tds.append(lay.top1(m))
+                    if lay.top[m][1] == 'dir':
+                        tds.append(lay.top2(m))
+            for td in tds:
+                for nm in [v['name']] + ([v['name'] + '_1'] if rng.random() < 0.5 else []):
+                    k = rng.choice(['pair', 'orphan_f', 'orphan_d', 'orphan_l', 'info_only'])
+                    if k == 'pair':
+                        nodes += scen.entry(td, nm, '/old/' + nm, '2001-01-01T00:00:00', rng.choice(['f', 'd']))
+                    elif k == 'orphan_f':
+                        nodes += [['f', td + '/files/' + nm, 'old orphan'], ['d', td + '/info', 0o700]]
+                    elif k == 'orphan_d':
+                        nodes += [['d', td + '/files/' + nm, 0o755], ['f', td + '/files/' + nm + '/old', 'old'], ['d', td + '/info', 0o700]]
+                    elif k == 'orphan_l':
+                        nodes += [['l', td + '/files/' + nm, 'dangling/target'], ['d', td + '/info', 0o700]]
+                    else:
+                        nodes += [['f', td + '/info/' + nm + '.trashinfo', scen.TI % ('/old/' + nm, '2001-01-01T00:00:00')], ['d', td + '/files', 0o700]]
     argv = []
     mode = 'plain'
     stdin = None
@@ -72,7 +100,8 @@ def new_trash_items(before, after):
         for name, e in ea.items():
             b = eb.get(name, {'info': None, 'payload': None})
             new_info = e['info'] is not None and b['info'] is None
-            new_pay = e['payload'] is not None and b['payload'] is None
+            # a payload that replaced an orphan which os.path.exists cannot see (a dangling symlink) is new as well
+            new_pay = e['payload'] is not None and (b['payload'] is None or (new_info and b['payload'] != e['payload']))
             if new_info and new_pay:
                 pairs.append((td, name))
             elif new_info:
@@ -83,9 +112,26 @@ def new_trash_items(before, after):
 
 
 def loose(t):
-    """a subtree without the mtime of its top node when that is a directory (moving it across devices re-stamps nothing, but
-    removing children does)"""
-    return {p: (v if not (p == '' and v[0] == 'd') else v[:3]) for p, v in t.items()}
+    """a subtree without the mtime of its top node when that is a directory, and without the mtime of symbolic links
+    (shutil.move recreates a link on another device with os.symlink: a link's own timestamp is not content)"""
+    return {p: (v[:3] if (p == '' and v[0] == 'd') or v[0] == 'l' else v) for p, v in t.items()}
+
+
+def _without_skeleton(now, orig):
+    """`now` minus the EMPTY trash-directory skeleton (<td>, <td>/files, <td>/info) a refused attempt created on demand inside
+    the entry (a mount point given as argument): reading decision 1 of DESIGN 8.21"""
+    import re
+    out = dict(now)
+    new_dirs = [p for p, v in now.items() if p not in orig and v[0] == 'd']
+    for p in sorted(new_dirs, key=len, reverse=True):
+        if re.search(r'/\.Trash(-\d+|/\d+)?(/files|/info)?$', p) and not any(q != p and q.startswith(p + '/') for q in out):
+            del out[p]
+    return out
+
+
+def _nodirtime(t):
+    # directories get a new mtime when the skeleton is created in them
+    return {p: (v[:3] if v[0] in ('d', 'l') else v) for p, v in t.items()}
 
 
 def conservation(run, scn, meta, res, section, step_index=0, allow_stray_if_refused=False, prop='C01'):
@@ -124,7 +170,7 @@ def conservation(run, scn, meta, res, section, step_index=0, allow_stray_if_refu
                 outcomes.append('violated')
             else:
                 outcomes.append('trashed')
-        elif now == orig or loose(now) == loose(orig):
+        elif now == orig or loose(now) == loose(orig) or _nodirtime(_without_skeleton(now, orig)) == _nodirtime(orig):
             outcomes.append('untouched')
         else:
             run.fail('oracle', 'an argument of trash-put is neither fully trashed nor untouched',
